@@ -328,6 +328,48 @@ func fixedArrays(files []*ast.File, info *types.Info) []string {
 	return out
 }
 
+// externalCalls: the functions and methods of OTHER packages (standard library, sibling packages) that the non-test
+// code of this package calls. The models assume the semantics of exactly these calls (DESIGN §7 item 5: strconv, strings,
+// regexp, math/big, image/color, sync …); a body that starts to use a different library routine (math/bits, hash/crc32,
+// bytes.TrimPrefix …) is no longer what the model was written against.
+func externalCalls(files []*ast.File, fset *token.FileSet, info *types.Info) []string {
+	seen := map[string]bool{}
+	for _, f := range files {
+		if strings.HasSuffix(fset.Position(f.Pos()).Filename, "export_verif.go") {
+			continue
+		}
+		ast.Inspect(f, func(n ast.Node) bool {
+			call, ok := n.(*ast.CallExpr)
+			if !ok {
+				return true
+			}
+			var id *ast.Ident
+			switch fn := call.Fun.(type) {
+			case *ast.SelectorExpr:
+				id = fn.Sel
+			case *ast.Ident:
+				id = fn
+			}
+			if id == nil {
+				return true
+			}
+			// calls into sibling packages of the library are mirrored by the models themselves (and whether their types
+			// resolve depends on where the translator runs): only routines outside the module are listed
+			if obj, ok := info.Uses[id].(*types.Func); ok && obj.Pkg() != nil && obj.Pkg().Name() != f.Name.Name &&
+				!strings.HasPrefix(obj.Pkg().Path(), "github.com/boombuler/barcode") {
+				seen[obj.FullName()] = true
+			}
+			return true
+		})
+	}
+	var out []string
+	for k := range seen {
+		out = append(out, k)
+	}
+	sort.Strings(out)
+	return out
+}
+
 func main() {
 	root := os.Args[1]
 	outDir := os.Args[2]
@@ -647,6 +689,7 @@ func main() {
 			fmt.Fprintf(&b, "def fact_goStatements : List String := %s\n\n", q(goStmts))
 			fmt.Fprintf(&b, "def fact_globalWrites : List String := %s\n\n", q(globalWrites))
 			fmt.Fprintf(&b, "def fact_fixedArrays : List String := %s\n\n", q(fixedArrays(files, info)))
+			fmt.Fprintf(&b, "def fact_externalCalls : List String := %s\n\n", q(externalCalls(files, fset, info)))
 			{
 				seen := map[string]bool{}
 				var u []string
@@ -812,6 +855,8 @@ func collectDict(pkg string, files []*ast.File, fset *token.FileSet, info *types
 							}
 							if x >= 2 && x <= 4200 {
 								add("i", fmt.Sprint(x))
+							} else if x > 4200 && x <= 1<<27 {
+								add("I", fmt.Sprint(x)) // a large constant: a threshold for an accumulated quantity rather than a length
 							}
 						}
 						return false
